@@ -4,6 +4,7 @@ import pandas as pd
 
 from mc.explorer import Skip
 from mc.runner import Sub
+from props.common import dense
 
 from formulaic import Formula, ModelSpec, model_matrix
 from formulaic.utils.structured import Structured
@@ -62,13 +63,6 @@ def leaves(obj, path=()):
         return out
     return {path: obj}
 
-
-def dense(m):
-    if hasattr(m, "toarray"):
-        return np.asarray(m.toarray(), dtype=float)
-    if isinstance(m, pd.DataFrame):
-        return m.to_numpy(dtype=float)
-    return np.asarray(m, dtype=float)
 
 
 def make_frame(nulls, index_kind):
